@@ -135,7 +135,8 @@ class Pipeline:
             self.sys.send(self.w_addr, self.da_addr, driver.UpdateSamples(0, list(self.in_flight)))
         self.raw = [new_sample(client_id=i % 2, sample_type=metrics.SampleType.Warmup if i == 0 else metrics.SampleType.Normal,
                                dependent=2 if (sl.get("dependent") and i == 0) else 0) for i in range(n("raw_samples_at_driver", hi + 1))]
-        self.D.raw_samples = list(self.raw)
+        # received the way the driver receives them (this also records the most recent sample per client)
+        self.D.update_samples(list(self.raw))
         self.stored = [new_sample(dependent=1 if sl.get("dependent") else 0) for _ in range(n("samples_in_driver_store", hi))]
         with env():
             for s in self.stored:
@@ -249,7 +250,11 @@ def pipeline_step(sl):
             elif event == "post_process":
                 # only the samples at batch positions 0, f, 2f, ... are stored when downsampling
                 legit_drop = {s.gid for i, s in enumerate(p.D.raw_samples) if i % p.factor != 0}
-                p.D.post_process_samples()
+                # the periodic tick as the driver actor takes it: the wake-up that makes the post-processing timer expire
+                p.D.number_of_steps, p.D.current_step, p.D.tasks_per_join_point = 2, 0, [{TASK}, {TASK}]
+                p.da.post_process_timer = driver.DriverActor.POST_PROCESS_INTERVAL_SECONDS - driver.DriverActor.WAKEUP_INTERVAL_SECONDS
+                p.da.receiveMessage(ta.WakeupMessage(None, None), p.da_addr)
+                observe("the wake-up that expires the timer post-processes", p.da.post_process_timer == 0)
             elif event in ("step_boundary", "last_step"):
                 legit_drop = {s.gid for i, s in enumerate(p.D.raw_samples) if i % p.factor != 0}
                 p.D.workers = [p.w_addr]
@@ -474,7 +479,12 @@ class Closed:
             s.trace.append("run %d emits a sample" % ev[1])
         elif ev[0] == "tick":
             s.trace.append("driver post-processing tick")
-            s.D.post_process_samples()
+            # through the driver actor's own wake-up handler, with the timer about to expire
+            da = s.actors[s.da_key]
+            da.post_process_timer = driver.DriverActor.POST_PROCESS_INTERVAL_SECONDS - driver.DriverActor.WAKEUP_INTERVAL_SECONDS
+            n_timers = len(s.timers)
+            da.receiveMessage(ta.WakeupMessage(None, None), s.actors[s.da_key].myAddress)
+            del s.timers[n_timers:]  # the handler re-arms its own periodic wake-up: not an event of this exploration
         elif ev[0] == "late":
             k, m = s.timers[ev[1]]
             run = s.actors[k].executor_future.run
@@ -619,6 +629,115 @@ def _replay_closed(entry):
 AUX = [closed_runs]
 AUX_REPLAY = {"closed_runs": _replay_closed}
 
+# ------------------------------------------------------------------------------------------------------------------
+# the load-generator seam: real AsyncIoAdapter.run + real schedule_for + real AsyncExecutor + real Sampler
+# ------------------------------------------------------------------------------------------------------------------
+def adapter_wiring(sl):
+    """every row of a worker's allocation matrix is executed through the real AsyncIoAdapter: each request's sample carries the id of
+    the client that issued it (the client whose Elasticsearch client was used), its task and operation, and every allocation runs its
+    iterations exactly once. Over-committed parallel elements make global client indices differ from physical client ids."""
+    import asyncio
+
+    n_sub = concrete(fresh_int("sub_tasks", 1, 3))
+    cap = concrete(fresh_int("clients_of_the_parallel_element", 1, 2))
+    iters = concrete(fresh_int("iterations", 1, 2))
+    first_client = concrete(fresh_int("first_client_id_of_this_worker", 0, 1)) * 4  # a worker that does not start at client 0
+    subs = [track.Task("sub%d" % i, track.Operation("op%d" % i, "verif-op"), clients=1, warmup_iterations=0, iterations=iters) for i in range(n_sub)]
+    matrix = driver.Allocator([track.Parallel(subs, clients=cap)]).allocations
+    ca = driver.ClientAllocations()
+    for k, row in enumerate(matrix):
+        ca.add(first_client + k, row)
+    log = []
+
+    from esrally.client import context as client_context
+
+    class EsStub(client_context.RequestContextHolder):
+        def __init__(self, client_id):
+            self.client_id = client_id
+            self.closed = 0
+
+        async def close(self):
+            self.closed += 1
+
+    class Factory:
+        def __init__(self, hosts, options, distribution_version=None, distribution_flavor=None):
+            pass
+
+        def create_async(self, api_key=None, client_id=None):
+            return EsStub(client_id)
+
+    class ClientNs:
+        EsClientFactory = Factory
+
+    class Source:
+        infinite = True
+
+        def partition(self, i, n):
+            return self
+
+        def params(self):
+            return {}
+
+    class TrackNs:
+        @staticmethod
+        def operation_parameters(t, task):
+            return Source()
+
+        def __getattr__(self, name):
+            return getattr(track, name)
+
+    class Rn:
+        completed = None
+        percent_completed = None
+
+        def __init__(self, op_type):
+            pass
+
+        async def __aenter__(self):
+            return self
+
+        async def __aexit__(self, *a):
+            return False
+
+        async def __call__(self, es, params):
+            log.append(es["default"].client_id)
+            es["default"].on_request_start()
+            es["default"].on_request_end()
+            return {"weight": 1, "unit": "ops", "issued-by": es["default"].client_id}
+
+    class Hosts:
+        all_hosts = {"default": [{"host": "localhost", "port": 9200}]}
+
+    cfg = StubCfg({("driver", "profiling"): False, ("driver", "assertions"): False, ("system", "async.debug"): False, ("client", "hosts"): Hosts,
+                   ("client", "options"): {"default": {}}, ("mechanic", "distribution.version"): None, ("mechanic", "distribution.flavor"): None})
+    contexts = {first_client + k: type("Ctx", (), {"api_key": None})() for k in range(len(matrix))}
+    all_samples = []
+    n_rows = len(matrix[0])
+    with shadowed(driver, (), extra={"client": ClientNs, "track": TrackNs()}), shadowed(driver.runner, (), extra={"runner_for": Rn}):
+        for row in range(n_rows):
+            allocs = ca.tasks(row)
+            if not allocs or ca.is_joinpoint(row):
+                continue
+            sampler = driver.Sampler(start_timestamp=time.perf_counter())
+            import threading
+
+            adapter = driver.AsyncIoAdapter(cfg, None, allocs, sampler, threading.Event(), threading.Event(), "continue", contexts, 0)
+            asyncio.run(adapter.run())
+            for smp in sampler.samples:
+                all_samples.append((row, smp))
+    core.trace("samples", len(all_samples))
+    core.note("matrix", [[str(x) for x in row] for row in matrix])
+    expected = [(row, cl, x.task) for cl, r in enumerate(matrix) for row, x in enumerate(r) if isinstance(x, driver.TaskAllocation)]
+    observe("every allocation issues its iterations exactly once", len(all_samples) == len(expected) * iters and len(log) == len(all_samples))
+    for row, smp in all_samples:
+        issued_by = smp.request_meta_data.get("issued-by")
+        observe("a sample carries the id of the client that issued the request", smp.client_id == issued_by)
+        observe("that client belongs to this worker", first_client <= smp.client_id < first_client + len(matrix))
+        x = matrix[smp.client_id - first_client][row] if first_client <= smp.client_id < first_client + len(matrix) else None
+        observe("and ran the task the matrix gives that client in that row", isinstance(x, driver.TaskAllocation) and smp.task is x.task
+                and smp.operation_name == x.task.operation.name)
+
+
 READS = [driver.Sampler.add, driver.Sampler.samples.fget, driver.Worker.send_samples, driver.Worker.drive, driver.Worker.receiveMsg_WakeupMessage,
          driver.DriverActor.receiveMsg_UpdateSamples, driver.Driver.update_samples, driver.Driver.post_process_samples, driver.Driver.joinpoint_reached,
          driver.Driver.move_to_next_task, driver.SamplePostprocessor.__call__, driver.Sample.dependent_timings.fget, metrics.InMemoryMetricsStore._add,
@@ -651,4 +770,11 @@ HARNESSES.append(Harness("drain_interleaving", drain_interleaving, "bounded-exha
                          stubs=["producer thread = an add() injected by sys.settrace at a line event inside Sampler.samples"],
                          bounds={"samples before": "0..2", "injection point": "every line event of the drain"},
                          doc="drain vs. concurrent add at statement granularity"))
+HARNESSES.append(Harness("adapter_wiring", adapter_wiring, "bounded-exhaustive", lambda tier: [{}],
+                         reads=[driver.AsyncIoAdapter.run, driver.schedule_for, driver.AsyncExecutor.__call__, driver.Sampler.add, driver.Allocator.allocations.fget],
+                         stubs=["EsClientFactory (client object remembering its client id)", "track.operation_parameters", "runner registry (stub runner reporting which client object it was given)"],
+                         assumptions=["runs on a real event loop and the real clock (nothing symbolic: a finite family of allocation matrices)"],
+                         bounds={"parallel element": "1..3 single-client sub-tasks on 1..2 clients (over-committed when sub-tasks > clients)", "iterations": "1..2",
+                                 "worker's first client id": "0 or 4"},
+                         doc="client id, task and operation of every sample through the real AsyncIoAdapter"))
 BUDGET = {"quick": 170, "thorough": 1200}
